@@ -833,4 +833,158 @@ theorem getLast?_quote_cons (cs : List Char) (h : cs.getLast? ≠ some '\\') :
   | nil => decide
   | cons c cs => rw [List.getLast?_cons_cons]; exact h
 
+/-! ## Punctuation, names and numbers without separating white space -/
+
+/-- punctuation characters that are their own match whatever follows: the punctuation list
+without `*` (which may start a time pattern such as `*:30`) -/
+def soloPunct : List Char := "[]{}()+-/%#:^".toList
+
+theorem scanAt_soloPunct (p : Char) (rest : List Char) (hp : p ∈ soloPunct) :
+    scanAt (p :: rest) = some 1 := by
+  have h1 : scanTimePattern (p :: rest) = none := by
+    simp only [scanTimePattern, List.map_cons]
+    have : ∀ q ∈ soloPunct, TP.tag q = .other ∨ TP.tag q = .colon := by decide
+    rcases this p hp with h | h <;> rw [h] <;> simp [TP.regexMatch, TP.hourAlts]
+  have hne : ∀ q ∈ soloPunct, q ≠ '=' ∧ q ≠ '<' ∧ q ≠ '>' ∧ q ≠ '!' ∧ q ≠ '"' ∧ q ≠ '.' ∧
+      isDigit q = false ∧ isNameStart q = false ∧
+      "[](){}+-*<>/%#:^".toList.contains q = true := by decide
+  obtain ⟨a1, a2, a3, a4, a5, a6, a7, a8, a9⟩ := hne p hp
+  have h2 : scanCmp (p :: rest) = none := scanCmp_none rest ⟨a1, a2, a3, a4⟩
+  have h3 : scanString (p :: rest) = none := scanString_none rest a5
+  have h4 : scanNumber (p :: rest) = none := scanNumber_none rest a7 a6
+  have h5 : scanName (p :: rest) = none := by simp [scanName, a8]
+  have h6 : scanNonAlnum (p :: rest) = some 1 := by
+    rw [scanNonAlnum_other rest ⟨a1, a2, a3⟩, a9]; rfl
+  simp [scanAt, h1, h2, h3, h4, h5, h6]
+
+theorem splitLine_soloPunct (f : Nat) (p : Char) (rest : List Char) (hp : p ∈ soloPunct) :
+    splitLine (f + 1) (p :: rest) = [p] :: splitLine f rest := by
+  simp [splitLine, scanAt_soloPunct p rest hp]
+
+/-- a word of the name form ends where the name characters end, whatever follows -/
+theorem splitLine_name_then (f : Nat) {c p : Char} {cs : List Char} (rest : List Char)
+    (h : isNameStart c = true) (hcs : cs.all isNameChar = true) (hp : isNameChar p = false) :
+    splitLine (f + 1) (c :: cs ++ p :: rest) = (c :: cs) :: splitLine f (p :: rest) := by
+  have ht : (cs ++ p :: rest).takeWhile isNameChar = cs := by
+    rw [takeWhile_append_stop _ _ _ hp, takeWhile_all _ _ hcs]
+  rw [List.cons_append, splitLine, scanAt_nameStart _ h, ht]
+  simp
+
+open TP in
+theorem regexMatch_digits_then (l : List (Fin 10)) (hl : l ≠ []) (t : T) (r : List T)
+    (ht : t = .other ∨ t = .ws ∨ (t = .star ∧ r.head? ≠ some .colon)) :
+    regexMatch (l.map T.dig ++ t :: r) = none := by
+  match l with
+  | [] => exact absurd rfl hl
+  | [d] =>
+    rcases ht with rfl | rfl | ⟨rfl, hr⟩
+    · simp [regexMatch, hourAlts]
+    · simp [regexMatch, hourAlts]
+    · match r with
+      | [] => simp [regexMatch, hourAlts]
+      | x :: r' =>
+        cases x <;> first | exact absurd rfl hr | simp [regexMatch, hourAlts]
+  | [d, e] =>
+    rcases ht with rfl | rfl | ⟨rfl, _⟩ <;> simp [regexMatch, hourAlts]
+  | d :: e :: g :: l' => simp [regexMatch, hourAlts]
+
+theorem tag_digit {c : Char} (h : isDigit c = true) : ∃ d, TP.tag c = .dig d := by
+  have := isDigit_nat.mp h
+  refine ⟨Fin.ofNat 10 (c.toNat - 48), ?_⟩
+  simp only [TP.tag, char_eq_iff c, char_le_iff]
+  simp
+  repeat' split
+  all_goals first | rfl | omega
+
+theorem map_tag_digits (ds : List Char) (h : ds.all isDigit = true) :
+    ∃ l : List (Fin 10), ds.map TP.tag = l.map TP.T.dig ∧ l.length = ds.length := by
+  induction ds with
+  | nil => exact ⟨[], rfl, rfl⟩
+  | cons c ds ih =>
+    simp only [List.all_cons, Bool.and_eq_true] at h
+    obtain ⟨l, hl, hlen⟩ := ih h.2
+    obtain ⟨d, hd⟩ := tag_digit h.1
+    exact ⟨d :: l, by simp [hd, hl], by simp [hlen]⟩
+
+/-- what the character after a run of digits must be for the run to be a match on its own:
+not a digit, not `.`, not `:`; and if it is `*`, no `:` after it (`5*:30` is a time pattern) -/
+def endsNumber (p : Char) (rest : List Char) : Prop :=
+  isDigit p = false ∧ p ≠ '.' ∧ p ≠ ':' ∧ (p = '*' → rest.head? ≠ some ':')
+
+theorem tag_cases_of_endsNumber {p : Char} {rest : List Char} (h : endsNumber p rest) :
+    TP.tag p = .other ∨ TP.tag p = .ws ∨
+      (TP.tag p = .star ∧ (rest.map TP.tag).head? ≠ some .colon) := by
+  obtain ⟨h1, h2, h3, h4⟩ := h
+  by_cases hs : p = '*'
+  · right; right
+    subst hs
+    refine ⟨by decide, ?_⟩
+    have := h4 rfl
+    match rest with
+    | [] => simp
+    | x :: rest' =>
+      simp only [List.map_cons, List.head?_cons, ne_eq, Option.some.injEq] at this ⊢
+      intro hx
+      apply this
+      -- tag x = colon → x = ':'
+      unfold TP.tag at hx
+      repeat' split at hx
+      all_goals first | cases hx | assumption
+  · have hd : ¬ ('0' ≤ p ∧ p ≤ '9') := by
+      intro hh; simp [isDigit, hh.1, hh.2] at h1
+    unfold TP.tag
+    rw [if_neg hs, if_neg h3, if_neg hd]
+    split
+    · right; left; rfl
+    · left; rfl
+
+theorem scanAt_digits_then (ds : List Char) (p : Char) (rest : List Char) (hne : ds ≠ [])
+    (hds : ds.all isDigit = true) (hp : endsNumber p rest) :
+    scanAt (ds ++ p :: rest) = some ds.length := by
+  obtain ⟨l, hl, hlen⟩ := map_tag_digits ds hds
+  have h1 : scanTimePattern (ds ++ p :: rest) = none := by
+    simp only [scanTimePattern, List.map_append, List.map_cons, hl]
+    rw [regexMatch_digits_then l (by intro e; subst e; simp at hlen; exact hne (List.eq_nil_of_length_eq_zero hlen.symm)) _ _
+      (tag_cases_of_endsNumber hp)]
+    rfl
+  obtain ⟨c, ds', rfl⟩ : ∃ c ds', ds = c :: ds' := by
+    cases ds with
+    | nil => exact absurd rfl hne
+    | cons c ds' => exact ⟨c, ds', rfl⟩
+  simp only [List.all_cons, Bool.and_eq_true] at hds
+  have hcn := isDigit_nat.mp hds.1
+  have hc : c ≠ '=' ∧ c ≠ '<' ∧ c ≠ '>' ∧ c ≠ '!' ∧ c ≠ '"' := by
+    simp [char_eq_iff c]; omega
+  have hall : (c :: ds').all isDigit = true := by simp [hds.1, hds.2]
+  generalize hs : c :: ds' ++ p :: rest = s at h1 ⊢
+  have hs' : s = c :: (ds' ++ p :: rest) := by rw [← hs]; rfl
+  have h2 : scanCmp s = none := by
+    rw [hs']; exact scanCmp_none _ ⟨hc.1, hc.2.1, hc.2.2.1, hc.2.2.2.1⟩
+  have h3 : scanString s = none := by rw [hs']; exact scanString_none _ hc.2.2.2.2
+  have h4 : scanNumber s = some (ds'.length + 1) := by
+    have htw : s.takeWhile isDigit = c :: ds' := by
+      rw [← hs, takeWhile_append_stop _ _ _ hp.1, takeWhile_all _ _ hall]
+    have hdr : s.drop (c :: ds').length = p :: rest := by rw [← hs, List.drop_left]
+    rw [scanNumber_eq, htw, hdr]
+    unfold numberTail
+    split
+    · rename_i heq
+      simp only [List.cons.injEq] at heq
+      exact absurd heq.1 hp.2.1
+    · simp
+  simp [scanAt, h1, h2, h3, h4]
+
+/-- a run of digits is a match on its own in front of anything that `endsNumber` -/
+theorem splitLine_digits_then (f : Nat) (ds : List Char) (p : Char) (rest : List Char)
+    (hne : ds ≠ []) (hds : ds.all isDigit = true) (hp : endsNumber p rest) :
+    splitLine (f + 1) (ds ++ p :: rest) = ds :: splitLine f (p :: rest) := by
+  have h := scanAt_digits_then ds p rest hne hds hp
+  obtain ⟨c, ds', rfl⟩ : ∃ c ds', ds = c :: ds' := by
+    cases ds with
+    | nil => exact absurd rfl hne
+    | cons c ds' => exact ⟨c, ds', rfl⟩
+  rw [List.cons_append] at h ⊢
+  rw [splitLine, h]
+  simp
+
 end Bardolph.Lex
